@@ -475,3 +475,69 @@ Proof.
   - intros _. cbn [length]. lia.
   - rewrite Hr. destruct (sort_graph_wf g2 Hw2) as [Hw3 Hn3]. eexists. split; [reflexivity|]. split; [assumption | lia].
 Qed.
+
+(** * The terminal flags are kept in step with the states *)
+Definition wft (g : graph) : Prop := length (g_term g) = nstates g.
+
+Lemma wft_new g : wft g -> wft (snd (new_state g)).
+Proof. unfold wft, new_state, nstates. cbn. rewrite !app_length. cbn. lia. Qed.
+Lemma wft_set_edges g s es : wft g -> wft (set_edges g s es).
+Proof. unfold wft. rewrite nstates_set_edges. auto. Qed.
+Lemma wft_add_edge g s l t : wft g -> wft (add_edge g s l t).
+Proof. apply wft_set_edges. Qed.
+Lemma wft_set_terminal g s : wft g -> wft (set_terminal g s).
+Proof. unfold wft, set_terminal, nstates. cbn. now rewrite set_nth_length. Qed.
+
+Lemma wft_fold_add es : forall g end_, wft g ->
+  wft (fold_left (fun g' (e : edge) => add_edge g' end_ (fst e) (snd e)) es g).
+Proof. induction es as [|e es IH]; intros g end_ H; cbn [fold_left]; [assumption|]. apply IH. now apply wft_add_edge. Qed.
+
+Theorem thompson_wft nopts :
+  (forall s, forall end_ g, wft g -> wft (snd (th_seq nopts s end_ g))) /\
+  (forall c, forall start end_ g, wft g -> wft (th_alts nopts c start end_ g)) /\
+  (forall a, forall g, wft g -> wft (snd (th_ratom nopts a g))) /\
+  (forall a, forall g, wft g -> wft (snd (th_atom nopts a g))).
+Proof.
+  apply ast_mutind.
+  - intros end_ g H. exact H.
+  - intros c IHc s IHs end_ g H. rewrite th_seq_cons.
+    destruct (new_state g) as [cs g0] eqn:E0. destruct (new_state g0) as [ce g0'] eqn:E1.
+    assert (H0 : wft g0) by (pose proof (wft_new g H) as X; now rewrite E0 in X).
+    assert (H1 : wft g0') by (pose proof (wft_new g0 H0) as X; now rewrite E1 in X).
+    cbv zeta. apply IHs. apply wft_fold_add. now apply IHc.
+  - intros a IHa start end_ g H. rewrite th_alts_one. specialize (IHa g H).
+    destruct (th_ratom nopts a g) as [[s e] g1]. cbn [snd] in IHa. now apply wft_add_edge, wft_add_edge.
+  - intros a IHa c IHc start end_ g H. rewrite th_alts_alt. specialize (IHa g H).
+    destruct (th_ratom nopts a g) as [[s e] g1]. cbn [snd] in IHa. apply IHc. now apply wft_add_edge, wft_add_edge.
+  - intros a IHa rep g H. rewrite th_ratom_eq. specialize (IHa g H).
+    destruct (th_atom nopts a g) as [[s e] g1]. cbn [snd] in *. destruct rep; [now apply wft_add_edge | assumption].
+  - intros i g H. cbn [th_atom]. destruct (new_state g) as [st g0] eqn:E0. destruct (new_state g0) as [e g1] eqn:E1.
+    cbn [snd]. apply wft_add_edge. pose proof (wft_new g0) as X. rewrite E1 in X. apply X.
+    pose proof (wft_new g H) as Y. now rewrite E0 in Y.
+  - intros g H. cbn [th_atom]. destruct (new_state g) as [st g0] eqn:E0. destruct (new_state g0) as [e g1] eqn:E1.
+    cbn [snd]. apply wft_add_edge. pose proof (wft_new g0) as X. rewrite E1 in X. apply X.
+    pose proof (wft_new g H) as Y. now rewrite E0 in Y.
+  - intros i g H. cbn [th_atom]. destruct (new_state g) as [st g0] eqn:E0. destruct (new_state g0) as [e g1] eqn:E1.
+    cbn [snd]. apply wft_add_edge. pose proof (wft_new g0) as X. rewrite E1 in X. apply X.
+    pose proof (wft_new g H) as Y. now rewrite E0 in Y.
+  - intros js g H. cbn [th_atom]. destruct (new_state g) as [st g0] eqn:E0. destruct (new_state g0) as [e g1] eqn:E1.
+    cbn [snd]. apply wft_add_edge. pose proof (wft_new g0) as X. rewrite E1 in X. apply X.
+    pose proof (wft_new g H) as Y. now rewrite E0 in Y.
+  - intros g H. cbn [th_atom]. destruct (new_state g) as [st g0] eqn:E0. destruct (new_state g0) as [e g1] eqn:E1.
+    cbn [snd]. apply wft_add_edge. pose proof (wft_new g0) as X. rewrite E1 in X. apply X.
+    pose proof (wft_new g H) as Y. now rewrite E0 in Y.
+  - intros s IHs g H. rewrite th_atom_par. destruct (new_state g) as [st g0] eqn:E0. destruct (new_state g0) as [ss g1] eqn:E1.
+    assert (H1 : wft g1). { pose proof (wft_new g0) as X. rewrite E1 in X. apply X. pose proof (wft_new g H) as Y. now rewrite E0 in Y. }
+    specialize (IHs ss g1 H1). destruct (th_seq nopts s ss g1) as [se g2]. exact IHs.
+  - intros s IHs g H. rewrite th_atom_sq. destruct (new_state g) as [st g0] eqn:E0. destruct (new_state g0) as [ss g1] eqn:E1.
+    assert (H1 : wft g1). { pose proof (wft_new g0) as X. rewrite E1 in X. apply X. pose proof (wft_new g H) as Y. now rewrite E0 in Y. }
+    specialize (IHs ss g1 H1). destruct (th_seq nopts s ss g1) as [se g2]. cbn [snd] in *. now apply wft_add_edge.
+Qed.
+
+Lemma thompson_wft_top nopts s : wft (snd (thompson nopts s)).
+Proof.
+  unfold thompson. destruct (new_state empty_graph) as [ss g1] eqn:E1.
+  assert (H1 : wft g1). { pose proof (wft_new empty_graph) as X. rewrite E1 in X. apply X. reflexivity. }
+  destruct (thompson_wft nopts) as (Hseq & _). specialize (Hseq s ss g1 H1).
+  destruct (th_seq nopts s ss g1) as [se g2]. cbn [snd] in *. now apply wft_set_terminal.
+Qed.
